@@ -24,6 +24,7 @@ type SpecEnv struct {
 	depth  int
 	predStack []string
 	witFn  string // key of the function whose witnesses are visible
+	prev   *State // state at the loop head (for `prev(e)` in step clauses)
 }
 
 func (vc *FnVC) newEnv(con *Contract, callee *ssa.Function) *SpecEnv {
@@ -560,7 +561,10 @@ func (e *SpecEnv) sel(x *SpecExpr, inOld bool) Val {
 				vc.registerKey(key, SInt)
 				sort = SInt
 			default:
-				e.fail("witness %s has no field %s (call site not found before this point)", x.Args[0].Name, x.Name)
+				if !vc.registerWitnessSig(strings.TrimPrefix(strings.SplitN(key, "$", 3)[1], ""), x.Name) {
+					e.fail("witness %s has no field %s (no such call site in this function)", x.Args[0].Name, x.Name)
+				}
+				sort = vc.keySort[key]
 			}
 		}
 		t := vc.eng.witTypes[e.witFn+"|"+key]
@@ -600,6 +604,10 @@ func (e *SpecEnv) sel(x *SpecExpr, inOld bool) Val {
 		}
 		for i := 0; i < s.NumFields(); i++ {
 			if s.Field(i).Name() == x.Name {
+				if _, isStruct := s.Field(i).Type().Underlying().(*types.Struct); isStruct {
+					ft := s.Field(i).Type()
+					return Val{vc.loadObj(st, vc.embRef(pt.Elem(), i, b.S), ft), ft, vc.sorts.sortOf(ft)}
+				}
 				key, fs, ft := vc.fieldKey(pt.Elem(), i)
 				rv := Val{sSelect(vc.curIn(st, key), b.S), ft, fs}
 				e.heapFact(st, rv)
@@ -692,6 +700,15 @@ func (e *SpecEnv) call(x *SpecExpr, inOld bool) Val {
 	}
 	st := e.st(inOld)
 	switch name {
+	case "prev":
+		if e.prev == nil {
+			e.fail("prev() outside a loop step clause")
+		}
+		save := e.cur
+		e.cur = e.prev
+		r := e.ex(args[0], false)
+		e.cur = save
+		return r
 	case "len":
 		a := e.ex(args[0], inOld)
 		switch a.K {
